@@ -427,6 +427,18 @@ def run(ctx):
     ask(dict(op="C14.lookup", voc="modular", tokens=L), ("lookup", "modular", L, [R["MAP"].get(t) for t in L]))
 
     # ---- 2. corner_first_ndindex / np.ndindex for every n
+    # (first: what the helper hands out is the caller's — every size's list, asked for in both spellings, is shuffled and thinned in place
+    #  and thrown away; anything below that is built from a shared memo of it would be wrong from here on)
+    import random as _r
+    for n in list(_corner_range(ctx)) + list(range(1, 51)):
+        for args in ((n,), (n, 2)):
+            try:
+                out = R["cf"](*args)
+                if isinstance(out, list) and out:
+                    _r.Random(n).shuffle(out); out.pop(); out.append(out[0])
+            except Exception:
+                pass
+    ctx.count("caller_edited_helper_results")
     cache = {}
     for n in _corner_range(ctx):
         impl = check_corner(ctx, R, B, n, cache)
